@@ -183,5 +183,35 @@ class LimitAdapter:
         raise Unavailable(f"no native builder for {name}")
 
 
-ADAPTERS = {"scoreboard": ScoreboardAdapter(), "limit": LimitAdapter()}
+class WorkingHoursAdapter:
+    """The compiled working-hours kernel (scriptplan/_cython/working_hours_cy) on random interval tables, including
+    intervals that cross midnight."""
+
+    def random_input(self, target, variant, rng):
+        table = {}
+        for wd in rng.sample(range(7), rng.randint(0, 5)):
+            ivs = []
+            for _ in range(rng.randint(1, 2)):
+                a, b = rng.randint(0, 23), rng.randint(0, 23)
+                ivs.append([[a, rng.choice([0, 0, 30])], [b if rng.random() < 0.8 else a, rng.choice([0, 0, 30, 59])]])
+            table[str(wd)] = ivs
+        return {"minutes": rng.randint(0, 1439), "weekday": rng.randint(0, 6), "table": table,
+                "cross": rng.random() < 0.7}
+
+    def build(self, target, variant, inp):
+        name = target.split("::")[1]
+        try:
+            cy = importlib.import_module("scriptplan._cython.working_hours_cy")
+        except ImportError as e:
+            raise Unavailable(f"working_hours_cy not importable: {e}")
+        table = {int(k): [((as_int(a[0]), as_int(a[1])), (as_int(b[0]), as_int(b[1]))) for a, b in v]
+                 for k, v in (inp.get("table") or {}).items()}
+        if name == "check_working_hours_fast":
+            m, wd, cross = as_int(inp["minutes"]), as_int(inp["weekday"]), as_bool(inp["cross"])
+            env = {"slot_minutes": m, "weekday": wd, "hours_dict": table, "check_cross_midnight": cross}
+            return env, (lambda: cy.check_working_hours_fast(m, wd, table, cross))
+        raise Unavailable(f"no native builder for {name}")
+
+
+ADAPTERS = {"scoreboard": ScoreboardAdapter(), "limit": LimitAdapter(), "workinghours": WorkingHoursAdapter()}
 NATIVE_FNS = {"uf_sbidx": lambda lim, i: lim._idx_to_sb_idx(int(i))}
